@@ -73,8 +73,22 @@ HIST = [
 
 FRONTS = ["file", "c", "stdin"]
 
+# --- earlier session activity that touches trap bookkeeping (run before the terminating command; prints nothing)
+PRIOR = [
+    ("none", ""),
+    ("compgen_fn0", "cf() { COMPREPLY=(x); return 0; }; compgen -F cf a >/dev/null 2>&1"),
+    ("compgen_fn124", "cf() { return 124; }; compgen -F cf a >/dev/null 2>&1"),
+    ("compgen_fn_fail", "cf() { return 1; }; compgen -F cf a >/dev/null 2>&1; compgen -W 'a b' a >/dev/null"),
+    ("debug_trap_cycle", "trap ':' DEBUG; :; trap - DEBUG"),
+    ("err_trap_ran", "trap ':' ERR; false; trap - ERR"),
+    ("return_trap_cycle", "rt() { :; }; trap ':' RETURN; rt; trap - RETURN"),
+    ("nested_eval_source", "echo ':' > pre.sh; eval '. ./pre.sh'; eval 'eval :'"),
+    ("failed_expansion_in_subshell", "( : ${nope_x:?gone} ) 2>/dev/null; x=$( : ${nope_y?gone} 2>/dev/null )"),
+    ("func_error_return", "fe() { return 7; }; fe; fe || :"),
+]
 
-def build(path, ctx, hist, front):
+
+def build(path, ctx, hist, front, prior=("none", "")):
     pname, ptext, pkind = path
     hname, htext, hmark = hist
     body = ptext
@@ -82,7 +96,7 @@ def build(path, ctx, hist, front):
         body = "trap 'echo \"@exit $?\"' EXIT; " + ptext
         htext = ""
     # multi-statement function definitions inside paths cannot be nested in every context textually; keep them plain
-    script = PRE + (htext + "\n" if htext else "") + "e start 0\n" + ctx[1].format(body) + "\n"
+    script = PRE + (htext + "\n" if htext else "") + "e start 0\n" + (prior[1] + "\n" if prior[1] else "") + ctx[1].format(body) + "\n"
     return script
 
 
@@ -188,8 +202,9 @@ def norm(obs, path):
 
 
 def judge(run, case):
-    path, ctx, hist, front = case
-    script = build(path, ctx, hist, front)
+    path, ctx, hist, front = case[:4]
+    prior = case[4] if len(case) > 4 else PRIOR[0]
+    script = build(path, ctx, hist, front, prior)
     rb, evs = run_brush_logged(script, front)
     d = core.new_scratch("ba")
     rr = core.run_shell("bash", script, d, mode=front, timeout=15)
@@ -200,7 +215,7 @@ def judge(run, case):
     if orf == ("timeout",):
         run.inconclusive += 1
         return
-    key = "%s|%s|%s|%s" % (path[0], ctx[0], hist[0], front)
+    key = "%s|%s|%s|%s|%s" % (path[0], ctx[0], hist[0], front, prior[0])
     bad = invariants(script, rb, path, hist, evs)
     if path[2] == "exit-nz":
         bad = [b for b in bad if b[0] != "exit-status-mismatch"] + (
@@ -211,7 +226,8 @@ def judge(run, case):
     if ck:
         bad.append(("crash", ck))
     if not bad and ob == orf:
-        run.note_nontrivial((path[0], ctx[0], hist[0], front))
+        run.note_nontrivial((path[0], ctx[0], hist[0], front, prior[0]))
+        run.count("prior:" + prior[0])
         run.count("path:" + path[0])
         run.count("exit_trap_enter_events", sum(1 for e in evs if e.get("kind") == "trap.enter" and e.get("signal") == "EXIT"))
         if evs:
@@ -236,7 +252,9 @@ def judge(run, case):
             return
     sig = "C16|%s|%s|%s" % (",".join(tags), key if len(tags) == 1 and tags[0] == "bash-diff" else path[0] + "|" + hist[0],
                             diffrun.first_diff(ob, orf).split(":")[0])
-    run.violation(sig, {"kind": "exitpath", "script": script, "mode": front, "path": path[0], "ctx": ctx[0], "hist": hist[0],
+    if prior[0] != "none":
+        sig += "|prior:" + prior[0]
+    run.violation(sig, {"kind": "exitpath", "script": script, "mode": front, "path": path[0], "ctx": ctx[0], "hist": hist[0], "prior": prior[0],
                         "invariant_failures": bad, "brush": diffrun.describe(ob), "bash": diffrun.describe(orf),
                         "first_diff": diffrun.first_diff(ob, orf), "brush_stderr": core.txt(rb.err[-800:]),
                         "events": evs[-12:]})
@@ -326,6 +344,15 @@ def run(run):
     rng.shuffle(cases)
     if quick:
         cases = cases[: int(1500 * scale)]
+    # earlier-activity dimension: every prior activity x a rotating slice of the product
+    rng2 = run.rng("prior")
+    base = all_cases()
+    extra = []
+    per = int((40 if quick else 600) * scale)
+    for pr in PRIOR[1:]:
+        for c in rng2.sample(base, min(per, len(base))):
+            extra.append(c + (pr,))
+    cases = cases + extra
     run.count("product_cases", len(cases))
     core.pmap(lambda c: judge(run, c), cases)
     pc = preserve_cases()
